@@ -365,6 +365,63 @@ func goroutinePrivateSlots(p *Prog, name string) *RuleResult {
 			}
 		}
 	}
+	// Part 2: plain variables and maps. A goroutine started in a loop that assigns a variable
+	// captured from the spawning function, or inserts into a captured map, races with its sibling
+	// instances unless a mutex is held at that point (must-hold lock set of the goroutine's function).
+	for _, g := range sites {
+		if g.callee == nil || g.callee.Blocks == nil || !blockInLoop(g.in.Block()) {
+			continue
+		}
+		mc, ok := g.in.Call.Value.(*ssa.MakeClosure)
+		if !ok {
+			continue
+		}
+		sharedFV := map[*ssa.FreeVar]bool{}
+		for i, fv := range g.callee.FreeVars {
+			if i < len(mc.Bindings) && !definedInLoop(mc.Bindings[i]) {
+				sharedFV[fv] = true
+			}
+		}
+		if len(sharedFV) == 0 {
+			continue
+		}
+		isWrite := func(in ssa.Instruction) (string, bool) {
+			switch x := in.(type) {
+			case *ssa.Store:
+				if fv, ok := x.Addr.(*ssa.FreeVar); ok && sharedFV[fv] {
+					return "assigns captured " + fv.Name(), true
+				}
+			case *ssa.MapUpdate:
+				if u, ok := x.Map.(*ssa.UnOp); ok && u.Op == token.MUL {
+					if fv, ok := u.X.(*ssa.FreeVar); ok && sharedFV[fv] {
+						return "inserts into captured map " + fv.Name(), true
+					}
+				}
+			}
+			return "", false
+		}
+		li := analyseLocks(g.callee, lockState{}, func(in ssa.Instruction) bool { _, w := isWrite(in); return w })
+		eachInstr(g.callee, func(b *ssa.BasicBlock, in ssa.Instruction) {
+			what, w := isWrite(in)
+			if !w {
+				return
+			}
+			r.Instances++
+			key := FuncName(g.callee) + " " + what
+			if held := li.at[in]; len(held) > 0 {
+				var ks []string
+				for k := range held {
+					ks = append(ks, k)
+				}
+				sort.Strings(ks)
+				r.OK(key, true, "a mutex is held at the write ("+strings.Join(ks, ", ")+")")
+				return
+			}
+			if !r.CheckExc(goSlotExceptions, key) {
+				r.Fail(key, p.Pos(in.Pos()), "concurrently running instances of this goroutine write the same captured variable / map without holding a mutex: a data race whose outcome depends on the schedule")
+			}
+		})
+	}
 	r.Note("go statements inside loops: %d of %d", nLoop, len(sites))
 	r.Anchor("go statements inside loops", nLoop >= 10)
 	r.StaleCheck(goSlotExceptions)
